@@ -277,6 +277,56 @@ fn op_schwab(case: &Value) -> Value {
     }
 }
 
+/// Every bundled rate (currency, year, month, rate) for 2014..2027.
+fn op_rates(fx: &cgt_money::FxCache) -> Value {
+    let mut out = Vec::new();
+    let mut codes = Vec::new();
+    for a in b'A'..=b'Z' {
+        for b in b'A'..=b'Z' {
+            for c in b'A'..=b'Z' {
+                let code = String::from_utf8_lossy(&[a, b, c]).to_string();
+                if let Some(cur) = cgt_money::Currency::from_code(&code) {
+                    codes.push((code, cur));
+                }
+            }
+        }
+    }
+    for (code, cur) in &codes {
+        for y in 2014..=2027 {
+            for m in 1..=12u32 {
+                if let Some(e) = fx.get(*cur, y, m) {
+                    out.push(json!([code, y, m, e.rate_per_gbp.to_string()]));
+                }
+            }
+        }
+    }
+    json!({"ok": true, "rates": out, "len": fx.len()})
+}
+
+/// GBP conversion of a ledger with the bundled cache (transactions_to_gbp), full precision.
+fn op_to_gbp(case: &Value, fx: &cgt_money::FxCache) -> Value {
+    let txs = match parse_input(case) {
+        Ok(t) => t,
+        Err(e) => return json!({"ok": false, "stage": "parse", "error": e}),
+    };
+    match cgt_core::transactions_to_gbp(&txs, Some(fx)) {
+        Ok(g) => {
+            use cgt_core::Operation as O;
+            let ops: Vec<Value> = g.iter().map(|t| match &t.operation {
+                O::Buy { amount, price, fees } => json!(["BUY", ds(*amount), ds(*price), ds(*fees)]),
+                O::Sell { amount, price, fees } => json!(["SELL", ds(*amount), ds(*price), ds(*fees)]),
+                O::Dividend { total_value, tax_paid } => json!(["DIVIDEND", ds(*total_value), ds(*tax_paid)]),
+                O::CapReturn { amount, total_value, fees } => json!(["CAPRETURN", ds(*amount), ds(*total_value), ds(*fees)]),
+                O::Accumulation { amount, total_value, tax_paid } => json!(["ACCUMULATION", ds(*amount), ds(*total_value), ds(*tax_paid)]),
+                O::Split { ratio } => json!(["SPLIT", ds(*ratio)]),
+                O::Unsplit { ratio } => json!(["UNSPLIT", ds(*ratio)]),
+            }).collect();
+            json!({"ok": true, "ops": ops})
+        }
+        Err(e) => json!({"ok": false, "stage": "to_gbp", "error": e.to_string()}),
+    }
+}
+
 /// The embedded exemption table, so that both sides are given the code's own data.
 fn op_config() -> Value {
     match Config::embedded() {
@@ -320,6 +370,8 @@ fn main() {
             "roundtrip" => op_roundtrip(&case, &fx),
             "format" => op_format(&case, &fx),
             "schwab" => op_schwab(&case),
+            "rates" => op_rates(&fx),
+            "to_gbp" => op_to_gbp(&case, &fx),
             _ => json!({"ok": false, "stage": "harness", "error": format!("unknown op {op}")}),
         }));
         let mut v = match res {
